@@ -124,7 +124,8 @@ pub fn gen_any_graph(t: &mut Tape, tier: Tier) -> G {
     let mut labels: Vec<u8> = if t.chance(0.6) {
         let mut ls = vec![];
         while ls.len() < nv {
-            let c = t.below(256) as u8;
+            // boundary labels of the u8 range and of its halves are over-represented on purpose
+            let c = if t.chance(0.3) { *t.pick(&[0u8, 255, 254, 1, 127, 128, 63, 64, 129, 126]) } else { t.below(256) as u8 };
             if !ls.contains(&c) {
                 ls.push(c);
             } else {
@@ -301,7 +302,7 @@ pub fn gen_phys_graph(t: &mut Tape, max_e: usize, max_l: usize, min_omega: f64, 
             massive[e] = true;
         }
     }
-    let ks: Vec<usize> = [0usize, 2, 3, 4].into_iter().filter(|&k| k <= nv).collect();
+    let ks: Vec<usize> = [0usize, 2, 3, 4, 5, 6, 7].into_iter().filter(|&k| k <= nv).collect();
     let mut k = *t.pick(&ks);
     if !massive.iter().all(|&m| m) && t.chance(0.5) {
         // massless parts need external momentum flowing through them: prefer many external vertices
@@ -519,8 +520,41 @@ pub fn transform_routing(t: &mut Tape, sig: &mut Vec<Vec<isize>>, shifts: &mut V
     (done, flips, off)
 }
 
-/// free external momenta (all but the last external) and masses
+/// free external momenta and masses, with overall-scale and mass-hierarchy classes ("any Euclidean kinematics")
 pub fn gen_kin_data(t: &mut Tape, g: &G) -> (Vec<Vec<f64>>, Vec<f64>) {
+    let (mut free, mut masses) = gen_kin_data_unit(t, g);
+    if t.chance(0.15) {
+        // everything in different units: masses and momenta times 10^k
+        let s = 10f64.powf(t.uniform(-3.0, 3.0));
+        for p in free.iter_mut() {
+            for v in p.iter_mut() {
+                *v *= s;
+            }
+        }
+        for m in masses.iter_mut() {
+            *m *= s;
+        }
+    }
+    if t.chance(0.1) {
+        // a hierarchy: one mass (or one momentum) three orders of magnitude away from the rest
+        let f = if t.bool() { 1e-3 } else { 1e3 };
+        let nm = masses.iter().filter(|m| **m > 0.0).count();
+        if nm > 0 && t.bool() {
+            let k = t.below(nm);
+            if let Some(m) = masses.iter_mut().filter(|m| **m > 0.0).nth(k) {
+                *m *= f;
+            }
+        } else if !free.is_empty() {
+            let k = t.below(free.len());
+            for v in free[k].iter_mut() {
+                *v *= f;
+            }
+        }
+    }
+    (free, masses)
+}
+/// momenta in [-2,2], masses in [0.3,2]
+pub fn gen_kin_data_unit(t: &mut Tape, g: &G) -> (Vec<Vec<f64>>, Vec<f64>) {
     let ne = g.nedges();
     let d = g.d;
     let nfree = g.externals.len().saturating_sub(1);
@@ -589,6 +623,12 @@ pub fn gen_routing_exact(t: &mut Tape, g: &G, free: &[Vec<f64>], masses: &[f64],
         }
     }
     Kin { sig, shifts, masses: masses.to_vec(), inflow }
+}
+/// kinematics of order one only (momenta in [-2,2], masses in [0.3,2]): for the statistical property, whose
+/// decision rule needs weights of bounded spread
+pub fn gen_kin_unit(t: &mut Tape, g: &G, max_ops: usize) -> Kin {
+    let (free, masses) = gen_kin_data_unit(t, g);
+    gen_routing(t, g, &free, &masses, max_ops)
 }
 pub fn gen_kin(t: &mut Tape, g: &G, max_ops: usize) -> Kin {
     let (free, masses) = gen_kin_data(t, g);
